@@ -3,6 +3,7 @@
 tier=${1:-quick}; seed=${2:-0}; shift 2 2>/dev/null
 ids=${@:-C01 C02 C03 C04 C05 C06 C07 C08 C09 C10 C11 C12 C13 C14 C15 C16 C17 C18 C19 C20}
 cd "$(dirname "$0")/.."
+exec 9>/tmp/koala-repo.lock; flock 9     # serialised with try_seed.sh, which patches /repo temporarily
 rc=0
 for id in $ids; do
   out=$(VERIF_SEED=$seed /venv/bin/python harness/check.py $id --tier $tier 2>&1); r=$?
